@@ -28,7 +28,7 @@ def load_known_findings() -> List[dict]:
     if os.path.exists(p):
         for ln in open(p, encoding="utf-8"):
             ln = ln.strip()
-            if ln and not ln.startswith("#"):
+            if ln.startswith("{"):
                 out.append(json.loads(ln))
     return out
 
